@@ -12,7 +12,9 @@ ID = "C08"
 RULE = ("Validated operations (queries and mutations) over generated schemas x deterministic worlds (values, nulls, "
         "ResolverError; 0-2 injected unexpected exceptions `Boom` at resolved paths) x configurations {BlockingExecutor, "
         "Executor+blocking runtime, Executor+ThreadPoolRuntime with a harness-owned pool, Executor+AsyncIORuntime with "
-        "gated coroutine resolvers and sync resolvers inline / through a harness-owned default executor} x completion "
+        "gated coroutine resolvers and sync resolvers inline / through a harness-owned default executor}; a quarter of the "
+        "explicit resolvers return a task they submitted to the runtime themselves, a quarter of the non-root fields are left "
+        "to the default resolver (deferring methods of the parent value); the pool models 1-3 or unbounded workers x completion "
         "schedules (drawn index sequences deciding which in-flight task completes next, plus an `eager` stream deciding "
         "at every pool submission whether a task completes before its submitter goes on; in thorough every completion "
         "order of operations with <= 6 deferred tasks is enumerated under 5 fixed eager streams). Oracle: data (ordered) and error multiset equal the reference executor's in every configuration "
@@ -33,6 +35,19 @@ def modes_for(salt):
     def modes(tn, fn):
         return "coro" if zlib.crc32(("%s|%s|%s" % (salt, tn, fn)).encode()) % 2 else "sync"
     return modes
+
+
+def submit_wrap(salt):
+    """explicit resolvers that hand their work to the runtime themselves and return the pool-submitted task"""
+    def wrap(resolver, tn, fd):
+        if zlib.crc32(("%s|%s|%s|submit" % (salt, tn, fd["name"])).encode()) % 4:
+            return resolver
+
+        def submitting(root, ctx, info, **args):
+            return info.runtime.submit(resolver, root, ctx, info, **args)
+        submitting.__name__ = resolver.__name__ + "_submitting"
+        return submitting
+    return wrap
 
 
 def default_fields_for(salt):
@@ -61,6 +76,9 @@ def run_config(config, schemas, req, eff, wj, boom, schedule):
 def judge(config, o, ref, boom):
     """-> list of (sig, detail)"""
     vios = []
+    if o.deadlock:
+        return [("C08/pool-workers-wait-for-pool-tasks/%s" % config,
+                 "every modelled worker blocks on a task only a free worker could run; tasks=%d choices=%r eager=%r" % (o.tasks, o.choices, o.eager))]
     if o.pending:
         return [("C08/pending-after-all-tasks/%s" % config, "tasks=%d choices=%r eager=%r" % (o.tasks, o.choices, o.eager))]
     if boom:
@@ -83,7 +101,8 @@ def prepare(case):
     from py_gql.validation import validate_ast
     spec = GS.Spec(case["spec"])
     df = default_fields_for(case["world"]["salt"]) if case.get("default_resolved", True) else None
-    sync_schema, eff = H.make_schema(spec, case["mode"], default_fields=df)
+    sync_schema, eff = H.make_schema(spec, case["mode"], wrap=submit_wrap(case["world"]["salt"]) if case.get("default_resolved", True) else None,
+                                     default_fields=df)
     async_schema, _ = H.make_schema(spec, case["mode"], wrap=SR.delivery_wrap(modes_for(case["world"]["salt"])), default_fields=df)
     req = case["request"]
     try:
@@ -141,6 +160,8 @@ def _count(ctx, case, config, o):
     nt = o.max_pending >= 2 and (any(c != 0 for c in o.choices) or any(o.eager))
     if any(o.eager):
         ctx.event("runs-with-a-task-completed-before-its-submitter-continued")
+    if o.worker_waits:
+        ctx.event("runs-where-a-task-waited-for-another-pool-task")
     ctx.event("config:" + config)
     if o.max_pending >= 2:
         ctx.event("runs-with->=2-tasks-in-flight")
@@ -154,7 +175,7 @@ def schedule_st(draw):
     """completion order plus the eager stream (tasks that complete before their submitter goes on)"""
     order = draw(st.lists(st.integers(0, 7), max_size=24))
     eager = draw(st.one_of(st.just([]), st.just([1] * 40), st.lists(st.sampled_from([0, 0, 1, 1, 2, 3]), max_size=24)))
-    return {"order": order, "eager": eager}
+    return {"order": order, "eager": eager, "workers": draw(st.sampled_from([None, None, 1, 1, 2, 3]))}
 
 
 EAGER_VECTORS = [[], [1] * 40, [1, 0] * 20, [0, 1] * 20, [0, 2] * 20]
